@@ -359,14 +359,6 @@ def allSites : List Site :=
 def siteRow (st : Site) : String × String × String × String × String :=
   ((siteInfo st).1, (siteInfo st).2.1, regS (siteReg st), (siteInfo st).2.2.1, (siteInfo st).2.2.2)
 
-def isDemandsSite : Site → Bool
-  | .demandsRemove | .demandsAdd => true
-  | _ => false
-
-/-- the tree before fixes/C14-demands-keep-pattern-usage-in-step.patch has no `Demands._edit` -/
-def expectedUsageCallsBeforeDemandsSync : List (String × String × String × String × String) :=
-  (allSites.filter (fun st => !isDemandsSite st)).map siteRow
-
 def expectedUsageCalls : List (String × String × String × String × String) :=
   allSites.map fun st => ((siteInfo st).1, (siteInfo st).2.1, regS (siteReg st), (siteInfo st).2.2.1, (siteInfo st).2.2.2)
 
